@@ -341,6 +341,13 @@ where
       #[cfg(feature = "diagnostics")]
       let mut last_log_ms = 0u64;
 
+      // LINGER: the owning socket stops this session with Command::Stop once its own queues are
+      // drained (or its linger period is over). The SocketClosing / ContextTerminating broadcast
+      // that starts that period must therefore not end an established session at once: it only
+      // starts the session's own clock, as a backstop in case the Stop never arrives.
+      // Some(None) = closing requested with an infinite linger.
+      let mut closing_deadline: Option<Option<TokioInstant>> = None;
+
       'operational: while self.current_phase == ConnectionPhaseX::Operational {
         if !core_carryover.is_empty()
           && self.current_phase == ConnectionPhaseX::Operational
@@ -476,7 +483,27 @@ where
 
           maybe_event = self.system_event_receiver.recv() => {
             match maybe_event {
-              Ok(event) => self.process_system_event(event).await,
+              Ok(event) => {
+                let closing_requested = match &event {
+                  SystemEvent::ContextTerminating => true,
+                  SystemEvent::SocketClosing { socket_id } => *socket_id == self.parent_socket_id,
+                  _ => false,
+                };
+                if closing_requested {
+                  let linger = self.socket_logic.core().core_state.read().options.linger;
+                  match linger {
+                    Some(d) if d.is_zero() => self.process_system_event(event).await,
+                    Some(d) => {
+                      closing_deadline.get_or_insert(Some(TokioInstant::now() + d));
+                    }
+                    None => {
+                      closing_deadline.get_or_insert(None);
+                    }
+                  }
+                } else {
+                  self.process_system_event(event).await;
+                }
+              }
               Err(broadcast::error::RecvError::Lagged(n)) => {
                 self.set_fatal_error(ZmqError::Internal(format!("System event lagged by {}", n))).await;
               }
@@ -484,6 +511,16 @@ where
                 self.set_fatal_error(ZmqError::Internal("System event channel closed".into())).await;
               }
             }
+          }
+
+          // Linger backstop: the socket was told to close, its linger period is over and no Stop came.
+          _ = async {
+            match closing_deadline {
+              Some(Some(deadline)) => tokio::time::sleep_until(deadline).await,
+              _ => futures::future::pending::<()>().await,
+            }
+          }, if matches!(closing_deadline, Some(Some(_))) => {
+            self.transition_to_shutdown_stream(None).await;
           }
 
           _ = async { self.ping_check_timer.as_mut().map_or(futures::future::pending().left_future(), |t| t.tick().right_future()).await },
@@ -740,6 +777,63 @@ where
         }
 
         log_session_diagnostics!(last_log_ms, self, ingress_buffer, egress_buffer, sndhwm, core_carryover);
+      }
+
+      // Orderly stop (no error): what the socket handed to this session before stopping it is
+      // still part of "accepted by send()". Write it out for as long as LINGER allows: the linger
+      // check of the socket only sees its own pipes, not what sits framed or half-framed here.
+      if self.current_phase == ConnectionPhaseX::ShuttingDownStream
+        && self.error_for_drop_guard.is_none()
+      {
+        let linger = self.socket_logic.core().core_state.read().options.linger;
+        let deadline: Option<TokioInstant> = match closing_deadline {
+          Some(d) => d,
+          None => linger.map(|d| TokioInstant::now() + d),
+        };
+        if linger != Some(Duration::ZERO) {
+          let flush = async {
+            loop {
+              // frame what is still unframed, oldest first, a bounded batch at a time
+              outgoing_batch.clear();
+              while outgoing_batch.len() < sndbatch_count.max(1) {
+                match core_carryover.pop_front() {
+                  Some(b) => outgoing_batch.push(b),
+                  None => break,
+                }
+              }
+              if outgoing_batch.is_empty() {
+                self
+                  .core_pipe_manager
+                  .try_recv_batch_from_core(&mut outgoing_batch, sndbatch_count.max(1));
+              }
+              if !outgoing_batch.is_empty() {
+                if use_owned_write {
+                  pending_vectored.push_back(self.zmtp_engine.frame_batch_vectored(&outgoing_batch)?);
+                } else {
+                  let bytes = self.zmtp_engine.frame_batch(&outgoing_batch)?;
+                  egress_buffer.push(bytes, outgoing_batch.len());
+                }
+              }
+              if !egress_buffer.is_empty() {
+                EgressDriver::new(&mut write_half, &mut egress_buffer, sndbatch_count, self.handle).await?;
+              } else if let Some(bufs) = pending_vectored.pop_front() {
+                write_half
+                  .write_owned(bufs)
+                  .await
+                  .map_err(|e| ZmqError::from_io_endpoint(e, "egress write"))?;
+              } else if outgoing_batch.is_empty() {
+                return Ok::<(), ZmqError>(());
+              }
+            }
+          };
+          let flushed = match deadline {
+            Some(d) => tokio::time::timeout_at(d, flush).await.unwrap_or(Ok(())),
+            None => flush.await,
+          };
+          if let Err(e) = flushed {
+            tracing::debug!(sca_handle = self.handle, error = %e, "Could not flush pending data before shutdown.");
+          }
+        }
       }
 
       self.read_half = Some(read_half);
